@@ -1,9 +1,14 @@
 """C04 helper — seeded generator of typed condition trees, rule sets, buffers and externals."""
+from vf.checks import c04lang as L
 from vf.checks.c04lang import (I64MIN, I64MAX, SENT, RD_KINDS, SOPS, Reject, Budget, cfold_walk, true_matches,
                                eval_rules, depth, loop_depth)
 
 PATTERNS = [b"a", b"b", b"ab", b"ba", b"aa", b"aba", b"abc", b"bca", b"cab", b"abab", b"xyz", b"zz", b"bb", b"cc"]
 STRPOOL = [b"", b"a", b"ab", b"AB", b"abc", b"Abc", b"b", b"abcabc", b"xyz", b"ABCabc", b"bc", b"c"]
+# operands that separate byte-exact sized-string semantics from C-string / signed-char shortcuts: embedded NUL, bytes >= 0x80,
+# equal prefixes of different length, needles longer than the haystack
+HARDPOOL = [b"ab\x00cd", b"ab\x00x", b"ab\x00", b"ab", b"\x00", b"\x00\x00", b"a\x00b", b"A\x00B", b"\xff", b"a\xff", b"a\x7f",
+            b"a\x80", b"\x80", b"\xc4\x80", b"\xe4", b"\xc4", b"ab\x00cdab\x00x", b"x\x00ab\x00", b"cd", b"\x00cd", b"B\x00", b""]
 REPOOL = [b"a", b"ab", b"abc", b"bc", b"B", b"xyz", b"cab"]
 AROPS_I = ["add", "sub", "mul", "div", "mod", "band", "bor", "bxor", "shl", "shr"]
 AROPS_F = ["add", "sub", "mul", "div"]
@@ -56,6 +61,8 @@ class G:
         self.c, self.r, self.rule, self.idx = case, case.r, rule, idx
         self.loops = []           # per depth: "i" / "s" (loop variable type) / "of"
         self.in_forof = False
+        self.hard = None
+        self.stringy = case.r.random() < 0.10      # a rule made mostly of string operators
         size = len(case.buf)
         self.offs = sorted({0, 1, 2, size - 1, size, size + 1, size - 2, size - 4, size - 3} |
                            {m[0] + d for s in rule.strs for m in s[2][:6] for d in (-1, 0, 1)} |
@@ -83,6 +90,28 @@ class G:
             self.c.needs_tests = True
             return e[1]
         return "b"
+
+    def mod(self, ty):
+        """a value provided by the `tests` module: a constant of the specification (defined or undefined)"""
+        r = self.r
+        self.c.needs_tests = True
+        if r.random() < 0.4:
+            return ("undef", ty, r.choice(L.MODUNDEF[ty]))
+        alias = r.choice([a for a, p in L.MODPROBES.items() if p[1] == ty])
+        self.c.exts[alias] = (ty, L.MODPROBES[alias][2])
+        return ("ext", alias)
+
+    def moditer(self, q, body_gen):
+        """for .. in <module array / dictionary>: an enumeration whose items the module fixes"""
+        r = self.r
+        src = r.choice(list(L.MODITER))
+        ity, items = L.MODITER[src]
+        self.c.needs_tests = True
+        dep = len(self.loops)
+        self.loops.append(ity)
+        body = self.as_body(body_gen())
+        self.loops.pop()
+        return ("forenum", q, list(items), body, ity, dep, True, src)
 
     def lit(self, v):
         """an integer expression whose value is v, not necessarily a compile-time constant"""
@@ -123,7 +152,7 @@ class G:
             return r.choice(self.offs) if r.random() < 0.85 else r.randint(-2, 70)
         if purpose == "index":
             n = len(self.strs_of(s)[2]) if s is not None else 2
-            return r.choice([0, 1, 1, 1, 2, n, n, n + 1, -1, 3])
+            return r.choice([0, 1, 1, 1, 2, n, n, n + 1, -1, 3, 2 ** 32 + 1, 2 ** 32 + n])   # 2^32+k: an `int` index would wrap to k
         if purpose == "shift":
             return r.choice([-1, 0, 1, 2, 8, 31, 32, 62, 63, 64, 65, 1000, -64])
         if purpose == "count":
@@ -149,7 +178,9 @@ class G:
             return ("filesize",)
         if u < 0.61:
             return ("undef", "i")
-        if u < 0.70:
+        if u < 0.66:
+            return self.mod("i")
+        if u < 0.72:
             ivars = [k for k, t in enumerate(self.loops) if t == "i"]
             if ivars:
                 return ("var", r.choice(ivars))
@@ -234,8 +265,10 @@ class G:
                 return ("flt", r.randint(0, 40) / 8.0)
             if v < 0.75:
                 return ("ext", self.c.new_ext("f", r.randint(-16, 40) / 8.0))
-            if v < 0.87:
+            if v < 0.84:
                 return ("undef", "f")
+            if v < 0.90:
+                return self.mod("f")
             return ("flt", float(r.randint(0, 300)))
         if u < 0.55:
             return ("neg", self.gen_flt(d - 1), "f")
@@ -255,11 +288,58 @@ class G:
         svars = [k for k, t in enumerate(self.loops) if t == "s"]
         if svars and u < 0.4:
             return ("var", r.choice(svars))
-        if u < 0.60:
-            return ("str", r.choice(STRPOOL))
+        if self.hard is None:
+            self.hard = r.random() < 0.5          # one flavour per rule, so that both operands come from the same pool
+        pool = HARDPOOL if self.hard else STRPOOL
+        if u < 0.62:
+            return ("str", r.choice(pool))
         if u < 0.85:
-            return ("ext", self.c.new_ext("s", r.choice(STRPOOL)))
+            v = r.choice(pool)
+            if 0 in v:                             # externals are defined through a C-string API: no embedded NUL
+                return ("str", v)
+            return ("ext", self.c.new_ext("s", v))
+        if u < 0.93:
+            return self.mod("s")
         return ("undef", "s")
+
+    def str_pair(self):
+        """two string operands that are RELATED (one derived from the other): prefixes / suffixes / infixes, one byte
+        changed (preferably after an embedded NUL or at a byte >= 0x80), case flipped, one byte longer, empty —
+        the pairs on which byte-exact, length-aware semantics differs from every C-string shortcut"""
+        r = self.r
+        if r.random() < 0.30:
+            return self.gen_str(), self.gen_str()
+        base = bytearray(r.choice(HARDPOOL + STRPOOL + [b"ab\x00cdEF", b"\x00ab\x00ab", b"aB\xffcd\x00e", b"abcabcabd"]))
+        n = len(base)
+        t = r.choice(["same", "prefix", "prefix", "suffix", "infix", "change", "change", "change", "append", "case", "empty", "nulcut"])
+        b = bytearray(base)
+        if t == "prefix" and n:
+            b = base[:r.randrange(n + 1)]
+        elif t == "suffix" and n:
+            b = base[r.randrange(n + 1):]
+        elif t == "infix" and n:
+            i = r.randrange(n + 1); j = r.randrange(i, n + 1); b = base[i:j]
+        elif t == "change" and n:
+            k = r.randrange(n)
+            if 0 in base and r.random() < 0.6:
+                k = min(n - 1, base.index(0) + r.choice([1, 1, 2, 0]))
+            b[k] = r.choice([b[k] ^ 0x20, b[k] ^ 0x80, 0, 0xff, (b[k] + 1) & 255])
+            if r.random() < 0.5:
+                b = b[:k + 1]
+        elif t == "append":
+            b = base + bytes([r.choice([0, 0x61, 0xff])])
+        elif t == "case":
+            b = bytearray(bytes(base).swapcase())
+        elif t == "empty":
+            b = bytearray()
+        elif t == "nulcut" and 0 in base:
+            b = base[:base.index(0)]
+        x, y = ("str", bytes(base)), ("str", bytes(b))
+        if r.random() < 0.08:
+            y = self.mod("s") if r.random() < 0.5 else ("undef", "s")
+        if r.random() < 0.25 and 0 not in b:
+            y = ("ext", self.c.new_ext("s", bytes(b)))
+        return (x, y) if r.random() < 0.7 else (y, x)
 
     # ---- quantifiers and sets
     def quant(self, d, n):
@@ -318,6 +398,8 @@ class G:
         r = self.r
         u = r.random()
         sr = self.sref()
+        if u < 0.16 and sr is not None:
+            return self.tight(sr)
         if u < 0.40 and sr is not None:
             return ("found", sr)
         if u < 0.60 and sr is not None:
@@ -329,6 +411,30 @@ class G:
         if u < 0.84:
             return (r.choice(["tt", "ff"]),)
         return ("cmp", r.choice(CMPS), self.int_leaf(), self.int_leaf(), "i")
+
+    def tight(self, sr):
+        """a comparison of a match-derived quantity with (nearly) its true value: sensitive to every slip in the
+        match-list opcodes (#, @, !, `in`)"""
+        r = self.r
+        ms = self.strs_of(sr)[2] if sr != "cur" else []
+        n = len(ms)
+        i = r.choice([1, 1, n, n, max(1, n // 2), n + 1, 0]) if n else r.choice([0, 1])
+        idx = ("int", 1, "short") if i == 1 and r.random() < 0.4 else self.lit(i)
+        m = ms[i - 1] if 1 <= i <= n else (r.randint(0, 9), r.randint(1, 4))
+        d = r.choice([0, 0, 0, 1, -1])
+        v = r.random()
+        if v < 0.30:
+            return ("cmp", r.choice(["eq", "eq", "neq", "le", "ge"]), ("length", sr, idx), self.lit(m[1] + d), "i")
+        if v < 0.55:
+            return ("cmp", r.choice(["eq", "eq", "neq", "lt", "ge"]), ("offset", sr, idx), self.lit(m[0] + d), "i")
+        if v < 0.70:
+            return ("cmp", "eq", ("ar", "add", ("offset", sr, idx), ("length", sr, idx), "i"), self.lit(m[0] + m[1] + d), "i")
+        if v < 0.85:
+            return ("cmp", r.choice(["eq", "eq", "neq", "gt"]), ("count", sr), self.lit(n + d), "i")
+        lo = m[0] + r.choice([0, 0, 1, -1])
+        hi = lo + r.choice([0, 1, m[1], 600])
+        k = sum(1 for x in ms if lo <= x[0] <= hi)
+        return ("cmp", "eq", ("countin", sr, self.lit(lo), self.lit(hi)), self.lit(k + r.choice([0, 0, 1])), "i")
 
     def as_body(self, e):
         """loop bodies of any type: integer / string valued bodies and `or` with an integer left operand count once
@@ -390,10 +496,12 @@ class G:
             body = self.as_body(self.gen_nest(k - 1))
             self.loops.pop()
             return ("forrange", q, lo, hi, body, dep, True)
+        if v < 0.52:
+            return self.moditer(q, lambda: self.gen_nest(k - 1))
         if v < 0.85 or not self.rule.strs or self.in_forof:
             ity = "s" if r.random() < 0.25 else "i"
             n = r.choice([1, 2, 3])
-            items = [self.lit(r.randint(0, 4)) for _ in range(n)] if ity == "i" else [("str", r.choice(STRPOOL)) for _ in range(n)]
+            items = [self.lit(r.randint(0, 4)) for _ in range(n)] if ity == "i" else [("str", r.choice(HARDPOOL if self.hard else STRPOOL)) for _ in range(n)]
             self.loops.append(ity)
             body = self.as_body(self.gen_nest(k - 1))
             self.loops.pop()
@@ -415,8 +523,10 @@ class G:
         if self.loops and len(self.loops) < MAXLOOPS and r.random() < 0.22:
             return self.gen_loop(d)
         u = r.random()
+        if self.stringy and r.random() < 0.6:
+            u = 0.2 if u < 0.5 else 0.52 + (u - 0.5) * 0.22            # and/or over string comparisons, string operators, matches
         has_strs = bool(self.rule.strs)
-        if u < 0.20:
+        if u <= 0.20:
             return (r.choice(["and", "or"]), self.gen_bool(d - 1), self.gen_bool(d - 1))
         if u < 0.27:
             return ("not", self.gen_bool(d - 1))
@@ -440,9 +550,11 @@ class G:
             op = "lt" if r.random() < 0.3 else r.choice(CMPS)
             return ("cmp", op, a, b, "f")
         if u < 0.56:
-            return ("cmp", r.choice(CMPS), self.gen_str(), self.gen_str(), "s")
+            a, b = self.str_pair()
+            return ("cmp", r.choice(CMPS), a, b, "s")
         if u < 0.61:
-            return ("sop", r.choice(SOPS), self.gen_str(), self.gen_str())
+            a, b = self.str_pair()
+            return ("sop", r.choice(SOPS), a, b)
         if u < 0.63:
             return ("matches", self.gen_str(), r.choice(REPOOL), r.random() < 0.4)
         if u < 0.66:
@@ -465,8 +577,10 @@ class G:
                 return ("ofin", q, st, lo, hi)
             if v < 0.85:
                 return ("ofat", q, st, self.gen_int(min(d - 1, 1), "offset", st[1][0]))
-            p = r.choice([1, 50, 100, 33, 34, 66, 67, 25, 75, 51, 99, 0, 101])
-            return ("pct", self.lit(p) if p in (0, 101) or r.random() < 0.5 else ("int", p), st)
+            p = r.choice([1, 50, 100, 33, 34, 66, 67, 25, 75, 51, 99, 0, 101, -1, 20, 40, 60, 80])
+            if r.random() < 0.12:
+                return ("pct", r.choice([("undef", "i"), self.mod("i"), ("read", "u8", self.lit(len(self.c.buf) + 1))]), st)
+            return ("pct", self.lit(p) if p in (0, 101, -1) or r.random() < 0.5 else ("int", p), st)
         if u < 0.86 and self.idx > 0:
             st = self.rset()
             if r.random() < 0.75:
@@ -494,6 +608,8 @@ class G:
                 body = self.as_body(self.gen_bool(d - 1))
                 self.loops.pop()
                 return ("forrange", q, lo, hi, body, dep, True)
+            if v < 0.42:
+                return self.moditer(self.quant(d - 1, 3), lambda: self.gen_bool(d - 1))
             if v < 0.65:
                 ity = "s" if r.random() < 0.3 else "i"
                 n = r.choice([1, 2, 2, 3, 4])
@@ -535,6 +651,41 @@ def gen_buffer(r, patterns):
     return bytes(out[:size])
 
 
+LONG_KS = [1, 2, 300, 508, 509, 510, 511, 512, 513, 600, 700, 900, 1021, 1022]
+
+
+def special_strings(r):
+    """-> (buffer, [(declaration text, true matches)]) : strings whose matches are long (beyond the 512 bytes of match
+    data that are kept) or numerous; the declarations are chosen so that the match set is unambiguous:
+      /XY+Z/  : at each X followed by k >= 1 Y and a Z, one match of length k + 2 (k + 2 <= YR_RE_SCAN_LIMIT);
+      { P Q Q [lo-hi] Q Q R } : one head and one tail in the buffer, match = head .. tail;
+      "a" in a run of 'a' : one match per position."""
+    u = r.random()
+    fill = lambda n: bytes(r.choice(b"._xyz") for _ in range(n))
+    if u < 0.45:
+        X, Y, Z = r.sample(list(b"ABCDEFG"), 3)
+        buf, ms = bytearray(fill(r.choice([0, 1, 2, 7]))), []
+        for k in [r.choice(LONG_KS) for _ in range(r.choice([1, 1, 2, 3]))]:
+            ms.append((len(buf), k + 2))
+            buf += bytes([X]) + bytes([Y]) * k + bytes([Z]) + fill(r.choice([0, 1, 3]))
+        return bytes(buf), [("/%c%c+%c/" % (X, Y, Z), ms)]
+    if u < 0.75:
+        P, Q, R = r.sample(list(b"PQRSTUV"), 3)
+        lo, hi = r.choice([(600, 800), (510, 520), (300, 700)])
+        g = r.choice([lo, hi, (lo + hi) // 2, lo + 1, hi - 1])
+        pre = fill(r.choice([0, 2, 5]))
+        buf = pre + bytes([P, Q, Q]) + fill(g) + bytes([Q, Q, R]) + fill(r.choice([0, 3]))
+        decl = "{ %02X %02X %02X [%d-%d] %02X %02X %02X }" % (P, Q, Q, lo, hi, Q, Q, R)
+        return buf, [(decl, [(len(pre), g + 6)])]
+    n = r.choice([255, 256, 257, 300, 1000, 1100])
+    pre = fill(r.choice([0, 1, 4]))
+    buf = pre + b"a" * n + fill(r.choice([0, 2]))
+    out = [(b"a", [(len(pre) + i, 1) for i in range(n)])]
+    if r.random() < 0.5:
+        out.append((b"aa", [(len(pre) + i, 2) for i in range(n - 1)]))
+    return buf, out
+
+
 def gen_case(r, maxdepth=MAXDEPTH):
     """-> Case with rules whose conditions are expected to compile; retried internally"""
     for _ in range(200):
@@ -542,13 +693,21 @@ def gen_case(r, maxdepth=MAXDEPTH):
         nrules = r.choice([1, 1, 1, 1, 2, 2, 2, 3, 3, 4])
         pats_all = []
         plan = []
+        special = None
+        if r.random() < 0.10:
+            sbuf, special = special_strings(r)
         for k in range(nrules):
             ns = r.choice([0, 1, 1, 2, 2, 3, 3, 4])
             pats = [r.choice(PATTERNS) for _ in range(ns)]
             plan.append(pats)
             pats_all += pats
-        c.buf = gen_buffer(r, pats_all)
-        if len(c.buf) >= 4 and r.random() < 0.12:
+        if special:
+            c.buf = sbuf
+            plan = [pats[:2] for pats in plan]
+            plan[-1] = plan[-1][:1] + [sp for sp in special]
+        else:
+            c.buf = gen_buffer(r, pats_all)
+        if len(c.buf) >= 4 and r.random() < 0.12 and not special:
             c.cuts = sorted(set(r.randrange(1, len(c.buf)) for _ in range(r.choice([1, 1, 2]))))
         blocks = c.blocks()
         try:
@@ -558,7 +717,11 @@ def gen_case(r, maxdepth=MAXDEPTH):
                 for p in pats:
                     pre = r.choice("ab")
                     cnt[pre] += 1
-                    rule.strs.append(("$_%s%d" % (pre, cnt[pre]), p, true_matches(p, blocks)))
+                    if isinstance(p, tuple):        # special string: (declaration, true matches)
+                        decl, ms = p
+                        rule.strs.append(("$_%s%d" % (pre, cnt[pre]), decl, ms if isinstance(decl, str) else true_matches(decl, blocks)))
+                    else:
+                        rule.strs.append(("$_%s%d" % (pre, cnt[pre]), p, true_matches(p, blocks)))
                 g = G(c, rule, k)
                 d = r.choice([1, 2, 3, 3, 4, 4, 5, maxdepth])
                 cond = g.gen_bool(d)
